@@ -6,6 +6,7 @@ import os
 from collections import Counter
 
 import sched_h as S
+import lv_universe as U
 from common import coq_failing, rng_for, CoqError
 
 
@@ -205,6 +206,8 @@ def mon_C17(case, obs):
                     return ('not-released', f'result of {d} still in memory although no unfinished task depends on it')
     if obs['outcome'] == 'returned' and obs['final_rmap']:
         return ('results-left-at-return', f"runner still holds results of {obs['final_rmap']} after a normal return")
+    if obs['outcome'] == 'returned' and obs.get('readable_after'):
+        return ('results-alive-at-return', f"results of {obs['readable_after']} are still readable through the task objects (task.result) after a normal return")
     return None
 
 
@@ -240,6 +243,35 @@ def nontrivial(case, obs):
     return case['n'] >= 3 and edges >= 2 and len([b for b in obs['batches'] if b]) >= 2
 
 
+def stage_falsy_results(report, dist):
+    """C01, directed: requested tasks whose run() returns None / 0 / False / '' / () are returned like any other — keys are
+    exactly the requested tasks in request order — on every backend, on a cold and on a warm cache."""
+    import shutil
+    import tempfile
+    from labtech.lab import Lab
+    from common import subdir
+    values = [None, 0, False, '', (), 0.0, 'ok', 1]
+    d = tempfile.mkdtemp(dir=subdir('falsy'))
+    try:
+        for backend, mw in (('serial', None), ('fork', 2)):
+            lab = Lab(storage=os.path.join(d, backend), runner_backend=backend, max_workers=mw, notebook=False)
+            tasks = [U.VRet(x=v, i=i) for i, v in enumerate(values)]
+            for phase in ('cold', 'warm'):
+                res = lab.run_tasks(tasks, disable_progress=True, disable_top=True)
+                dist['falsy_result_runs'] += 1
+                keys_ok = len(res) == len(tasks) and all(k is t for k, t in zip(res.keys(), tasks))
+                vals_ok = keys_ok and all(type(res[t]) is type(v) and res[t] == v for t, v in zip(tasks, values))
+                if not vals_ok:
+                    missing = [repr(v) for t, v in zip(tasks, values) if t not in res]
+                    report.violation('C01:falsy-result-dropped' if missing else 'C01:wrong-result',
+                                     f'run_tasks on {backend} ({phase} cache) with tasks returning {values!r}: '
+                                     + (f'no entry for the tasks returning {missing}' if missing else f'returned {list(res.values())!r}'),
+                                     dict(level='falsy', backend=backend, phase=phase))
+                    return
+    finally:
+        shutil.rmtree(d, ignore_errors=True)
+
+
 def run(prop, report, tier, seed, replay=None):
     spec = PROPS[prop]
     rng = rng_for(seed, prop, 'sched')
@@ -260,6 +292,10 @@ def run(prop, report, tier, seed, replay=None):
                                         **spec['gen']))
     results, terms = [], []
     dist = Counter()
+    if prop == 'C01' and (replay is None or replay['input'].get('level') == 'falsy'):
+        stage_falsy_results(report, dist)
+        if replay is not None:
+            return
     seen = set()
     distinct_nontrivial = 0
     xterms, xkept = [], []
